@@ -244,6 +244,10 @@ var c19Splices = [][2]string{
 	{"a\n{{ 1 }}{{--", " open"},
 	{"@if", "(x)y@end"},
 	{"@each", "(v in a)y@end"},
+	// a comment whose terminator may be preceded by more dashes, followed by text and a second comment: the first
+	// "--}}" ends the comment wherever the dash run started, so X is a text token and never part of a gap
+	{"{{--", "--}}X{{-- b --}}Y"},
+	{"{{-- a -", "-}}X{{-- b --}}Y"},
 }
 
 // HarnessC19Splice: a hole of K symbolic bytes between concrete construct halves (inside a comment, right after a
